@@ -18,14 +18,15 @@ suite=$(cargo test --offline --lib 2>&1 | grep -E "^test result" | head -1)
 demo_mut=$(cargo test --offline --test mutant_${N}_demo 2>&1 | grep -E "^test result" | head -1)
 git apply -R mutant_$N.diff
 echo "suite with mutant: $suite"; echo "demo with mutant: $demo_mut"; echo "demo without: $demo_clean"
+unset CARGO_TARGET_DIR
 # now the checks on /repo
 cd /repo
 git apply $D/patch.diff || { echo "patch does not apply to /repo"; exit 2; }
 results=""
 for prop in $P "$@"; do
-  out=$(cd /verif && ./check $prop 2>&1 | tail -6)
-  rc=$?
-  line=$(echo "$out" | grep -E "^VIOLATION" | head -1)
+  full=$(cd /verif && ./check $prop 2>&1)
+  out=$(echo "$full" | tail -6 | cut -c1-400)
+  line=$(echo "$full" | grep -E "^VIOLATION" | head -1)
   echo "--- check $prop with mutant: ${line:-no violation}"
   echo "$out" | tail -4
   results="$results $prop:${line:+VIOLATION}"
